@@ -203,12 +203,14 @@ DIRECTIVE_QUERIES = ["{ items { v w } }", "{ b1: broken b2: broken fine }", "{ i
                      "{ items { w } fine f2: fine }"]
 
 
-async def directive_termination_scenario(timeout=6.0):
+async def directive_termination_scenario(timeout=15.0):
     from tartiflette import create_engine, Resolver, Directive
     from tartiflette.resolver.default import sync_arguments_coercer
     problems, n = [], 0
     answers = {}
     for cfg in CONFIGS:
+        if len(problems) >= 3:
+            break                                   # enough to report; every further hang costs a full timeout
         name = fresh_schema_name("c08dir")
         for dn in ("lim", "ok"):
             def mkd(dn):
